@@ -132,3 +132,58 @@ fn kx_static_into_vec_and_mut() {
         if i < len { assert!(m[i] == DATA[off + i]); }
     }
 }
+
+// ---- K8 twins of the zero-copy conversions ------------------------------------------------------
+// The symbolic-size obligations (kx_arc_try_into_mut_unique, ...) prove the real code for every
+// size, but a CHANGE that makes such a path copy turns them into symbolic-size memmoves that CBMC
+// cannot finish (undecided, not an alarm).  The same contracts on an 8-byte allocation stay
+// decidable for such changes and report them.
+
+// @ob props=C07,C08,C04,C01 tier=quick kind=Kbounded bound="allocation size 8" fns=Bytes::try_into_mut,shared_to_mut_impl,promotable_to_mut
+#[kani::proof]
+#[kani::unwind(10)]
+fn kx_arc_try_into_mut_unique_k8() {
+    let (buf, cap) = fixed_alloc(8);
+    let data = fill(buf, cap);
+    let (b, g) = any_shared_on(buf, cap, any_arc_vtable(), 1);
+    let p = buf as usize + g.off;
+    match b.try_into_mut() {
+        Ok(m) => {
+            assert!(m.as_ptr() as usize == p && m.len() == g.len && m.capacity() == cap - g.off);
+            let i: usize = kani::any();
+            if i < g.len { assert!(m[i] == data[g.off + i]); }
+            // nothing moved inside the allocation either
+            let j: usize = kani::any();
+            if j < cap { assert!(unsafe { *buf.add(j) } == data[j]); }
+            drop(m);
+        }
+        Err(e) => { core::mem::forget(e); assert!(false); }
+    }
+}
+
+// @ob props=C07,C08,C04,C01,C16 tier=quick kind=Kbounded bound="allocation size 8" fns=Bytes::try_into_mut,promotable_odd_to_mut,promotable_to_mut
+#[kani::proof]
+#[kani::unwind(10)]
+fn kx_prom_odd_try_into_mut_k8() {
+    let blk: Vec<u8> = Vec::with_capacity(9);
+    let mut blk = ManuallyDrop::new(blk);
+    let buf = unsafe { blk.as_mut_ptr().add(1) };
+    let cap = 8;
+    let data = fill(buf, cap);
+    let off: usize = kani::any();
+    kani::assume(off <= cap);
+    let len = cap - off;
+    let b = Bytes { ptr: unsafe { buf.add(off) }, len, data: AtomicPtr::new(buf.cast()), vtable: &PROMOTABLE_ODD_VTABLE };
+    match b.try_into_mut() {
+        Ok(m) => {
+            assert!(m.as_ptr() as usize == buf as usize + off && m.len() == len && m.capacity() == len);
+            assert!(mvec_fields(&m) == (off, cap));
+            let i: usize = kani::any();
+            if i < len { assert!(m[i] == data[off + i]); }
+            let j: usize = kani::any();
+            if j < cap { assert!(unsafe { *buf.add(j) } == data[j]); }
+            core::mem::forget(m);
+        }
+        Err(e) => { core::mem::forget(e); assert!(false); }
+    }
+}
